@@ -59,6 +59,23 @@ CLAIMS = {
          "ProgramOK is established for the real scheduler's output per produced schedule (schedValid) and by the acceptance "
          "path of the model; the theorem Program.new => ProgramOK is future work (DESIGN.md C07).",
          "Lean 4 proof (type soundness by induction over expressions, actions, cycles) + differential oracle"),
+ "C08": ("Lean theorem C08_accept_iff_rules / check_eq_typeOf: for every setting of the five flags, every context and every "
+         "expression (all operators, nestings, widths), get_width_and_check's model accepts at width w if and only if the "
+         "documented width rules Spec.typeOf (equal-or-unsized operands for bitwise/shift/comparison/in, boolean operands for "
+         "&& || under strict-boolean-ops, arms agree, lo <= hi <= width, sized concatenation <= 128, exactly one always-true "
+         "arm and it is last, ...) yield w; C08_target_rule for the assignment target; C08_width_is_semantic_width ties the "
+         "rule width to the evaluation width. Width-mutated programs at every depth/boundary are compared with model and Spec.",
+         "Program-level acceptance (which expression is checked against which target; constants and defaults) is modelled in "
+         "Program.new and compared differentially with Spec.faults; the parser bounds (128) come through the translator tie.",
+         "Lean 4 proof (mutual induction, scan invariants) + differential oracle on mutated programs"),
+ "C09": ("Lean theorems about the model of Program::new's first stage (C09_stage1_rejects, step1_errors_mono, "
+         "step1Name_double): every fault recorded by the stage (double declaration, double assignment, assignment to a "
+         "built-in output or constant, constant reading a wire/undeclared name) makes Program.new return an error for every "
+         "iteration order, and errors are never dropped. The full fault list of the statement is Spec.faults; fault injection "
+         "of every class at every kind of name compares the real accept/reject and the (kind, name) multiset with the model, "
+         "the verdict with Spec.faults, and requires the injected name in the diagnostics.",
+         "Later stages (banks, unset wires, partial components) are covered by the model correspondence and Spec.faults oracle, not yet by theorems.",
+         "Lean 4 proof (fold monotonicity) + exhaustive-by-class fault injection with differential oracle"),
  "C10": ("Lean theorems C10_cycle_iff, C10_sorter_spec, C10_never_panics, C10_reported_loop_is_real about a model of "
          "Graph::topological_sort/find_cycle that takes the hash-iteration orders as explicit data: for every order the sorter "
          "reports a cycle iff one exists, the reported cycle is real, a successful sort is a complete linear extension, and "
@@ -67,6 +84,20 @@ CLAIMS = {
          "injection (through components, banks, write ports, constants) is compared with the reachability-based specification.",
          "Program-level edge construction is covered by the loop-injection stream and Spec.faults, not yet by a theorem.",
          "Lean 4 proof (invariants over Kahn and DFS loops) + differential replay with logged hash orders"),
+ "C18": ("The real step_with_output is run under the empty, full and random subsets of the five output options and must leave "
+         "every wire, register, memory byte and status identical to the option-free run (which is compared with model and "
+         "specification); the model's simulation functions do not take options at all. The -d table printed by the real code "
+         "is compared byte for byte with Dump.wireTable. Theorems C18_grouped_lists / C18_ungrouped_lists (exactly the wires "
+         "with a value that are not constants/defaulted are listed), C18_listed_once, C18_value_reads_back, C18_value_width.",
+         "Component messages (addresses/register numbers/data) are not modelled.",
+         "Lean 4 proof about the table model + differential runs under option subsets"),
+ "C19": ("Lean theorems C19_exit (with well-formed options the exit status is 0 iff what was asked was done), C19_option_error, "
+         "C19_output_matches_status (status 0 only with help/version/'syntax OK'/final state; 1 never with a final state), "
+         "C19_check_simulates_nothing, about Cli.mainReal (the return statements of main_real in source order). The real binary "
+         "is run on ~1200 argument vectors (options, 0-4 positionals, file states, timeouts incl. 2^32-1, 2^32, -1, abc, '') and "
+         "its status, output kind, channel use, executed cycles and banner compared with model and specification.",
+         "getopts, file IO and the simulation are abstracted into the fields of CliInput; they are exercised by the real runs.",
+         "Lean 4 proof (finite case analysis of the decision logic) + differential runs of the built binary"),
  "C20": ("Lean theorems C20_disasm (for every valid Y86-64 instruction - all opcodes, condition/function codes, register pairs "
          "and all 64-bit immediates - and any following bytes, disassemble consumes exactly the encoding's length and prints the "
          "CS:APP text), C20_invalid (opcode nibble > 0xB: one byte, <invalid>), C20_line (the trace line shows pc, then exactly "
@@ -74,6 +105,26 @@ CLAIMS = {
          "first-two-byte comparison of the real disassembler with model and specification, and real trace lines.",
          "Hex formatting ({:x}, {:02x}) is a shared primitive of model and specification (Hcl/Util/Format.lean), compared with Rust's through the streams.",
          "Lean 4 proof (case split on instruction form, omega for field extraction) + exhaustive differential check"),
+ "C12": ("Lean theorems C12_values_schedule_independent (= C01_order_independent: any two valid schedules of the same action "
+         "set give identical values on every wire) and C12_loop_verdict_order_independent (two iteration orders of the same "
+         "dependency graph either both report a loop or both schedule; via C10_cycle_iff). Every generated program (accepted, "
+         "faulty, looping) is built and run 4-8 times in-process with fresh hash seeds and must behave identically; the CLI is "
+         "run repeatedly in C19's stream.",
+         "Renaming/statement-permutation invariance is exercised by the shuffled generators but not stated as a theorem.",
+         "Lean 4 proof (uniqueness of settlement; graph-level order independence) + repeated builds under fresh hash seeds"),
+ "C15": ("Lean theorems Yo.C15_line_no_panic / C15_load_no_panic (for every byte string - short, empty, odd digit counts, non-hex, "
+         "non-ASCII, invalid UTF-8 - none of the loader's string slicings can panic: the model uses Rust's own is_char_boundary "
+         "rule and the panicking index form), hexLoop_no_panic (fuel), C15_empty_refused. That exactly the listed bytes are "
+         "loaded and malformed files refused is the differential oracle against Spec.classify/Spec.image on valid and "
+         "byte-level-damaged listings.",
+         "The theorem loadLine = Spec.classify (exact image) is future work; it is covered differentially.",
+         "Lean 4 proof (panic-freedom of byte slicing) + differential oracle on valid and malformed listings"),
+ "C16": ("The real dump_y86_str text is compared byte for byte with the Lean model Dump.state on random machine states (registers "
+         "to 2^64-1, sparse/unaligned/top-of-address-space memory, 0-6 banks with long and non-ASCII names forcing wraps, all "
+         "banners), and read back by the format reader Spec.DumpFormat.parse into exactly the state (oracle). Theorems so far: "
+         "C16_hex_roundtrip / hexDigits_roundtrip (every number printed in hexadecimal reads back as itself).",
+         "The whole-dump round-trip theorem parse (dump st) = st is not proved; it is checked on every generated state.",
+         "differential model + parse-back oracle; Lean 4 proof of the number rendering round trip"),
  "C17": ("Lean theorem C17_eval_flag_independent: an expression accepted under two strictness flag sets has the same width "
          "and evaluates identically under both, for every valuation (the flags occur in the model's check and applyBin; the "
          "specification's value does not mention them). The harness is rebuilt per cargo feature set and accept/reject + "
